@@ -9,7 +9,7 @@
     golang.org/x/time/rate           Limiter.WaitN / reserveN / advance / Reservation.CancelAt (n = 1)
     lib/pkcs9/timestampcache         cacheKey, Timestamp; bradfitz/gomemcache legalKey
     lib/pkcs9/pkcs7.go               TimestampAndMarshal (CMS attach sites, both attribute OIDs)
-    signers/vsix/oxmlsig.go          makeSignature (token embedded without a check), checkTimestamp
+    signers/vsix/oxmlsig.go          makeSignature (pkcs9.Verify before the token is embedded: fix a163120; `…Orig` = before), checkTimestamp
     signers/appmanifest, lib/appmanifest   sign (legacy / RFC 3161), AddTimestamp -> VerifyTimestamp
     signers/cosign/signer.go         attachTimestamp (pkcs9.Verify before the annotation is written)
     signers/apk, pgp, deb, rpm       cert.Timestamper is never consulted
@@ -294,11 +294,6 @@ inductive Site where
   | unsupported    -- apk (v2 block), pgp, deb, rpm: the module never looks at cert.Timestamper
   deriving Repr, DecidableEq
 
-/-- which sites compare the token with the signature value before they emit it -/
-def Site.selfChecks : Site → Bool
-  | .vsix => false
-  | _ => true
-
 /-- the unauthenticated attribute under which a CMS site stores the token: Authenticode's `SPC_RFC3161` OID
 1.3.6.1.4.1.311.3.3.1 ("spc") or id-aa-timeStampToken 1.2.840.113549.1.9.16.2.14 ("tst") -/
 def Site.oid : Site → Option String
@@ -337,16 +332,16 @@ def verifyX (H : Nat → Nat) (g : Bool) (a : ArtX) : Res (Option CounterSig) :=
     | .manifest => liftCs (verifyManifestTs H g t a.sigValue)
     | _ => liftCs (verifyRfcToken H g t a.sigValue)
 
-/-- what the signer module does with the token it was given -/
+/-- what the signer module does with the token it was given: every site compares it with the signature value before
+the artefact is emitted (`TimestampAndMarshal`'s self-verification, `AddTimestamp` → `VerifyTimestamp`, cosign's and,
+since fix a163120, the VSIX signer's `pkcs9.Verify`) -/
 def attachX (H : Nat → Nat) (g : Bool) (site : Site) (ed leaf : Nat) (t : Token) : Res ArtX :=
   let a : ArtX := ⟨site, ed, leaf, some t⟩
-  if site.selfChecks then
-    match verifyX H g a with
-    | .ok _ => .ok a
-    | .err e => .err ("selfcheck:" ++ e)
-    | .panic s => .panic s
-    | .diverge => .diverge
-  else .ok a
+  match verifyX H g a with
+  | .ok _ => .ok a
+  | .err e => .err ("selfcheck:" ++ e)
+  | .panic s => .panic s
+  | .diverge => .diverge
 
 /-- one signature of a signer module: `ts = none` is `cert.Timestamper == nil`; otherwise the behaviour of
 `cert.Timestamper.Timestamp` for the request this site makes -/
@@ -376,6 +371,45 @@ def signOp (D : Nat → List Char) (H : Nat → Nat) (c : Cfg) (sect : Option Ts
     | _ =>
       let call := stamperCall D H c conf name memcache up sh now ctx world (site.legacy rfcFlag) hash nonce ed
       ((signSite H c.guards site ed leaf (some call.1.outcome)).1, call.1.outcome)
+
+/-! ### the code before fix a163120 (finding F52): the VSIX signer embedded the token without a check
+
+Kept so that the defect stays a theorem about the code it was found in (`Relic.Props.C10.attach_site_vsix_unchecked_orig`)
+and so that the driver can say when an implementation behaves like the unrepaired tree. -/
+
+/-- which sites compared the token with the signature value before the repair -/
+def Site.selfChecksOrig : Site → Bool
+  | .vsix => false
+  | _ => true
+
+def attachXOrig (H : Nat → Nat) (g : Bool) (site : Site) (ed leaf : Nat) (t : Token) : Res ArtX :=
+  if site.selfChecksOrig then attachX H g site ed leaf t else .ok ⟨site, ed, leaf, some t⟩
+
+def signSiteOrig (H : Nat → Nat) (g : Bool) (site : Site) (ed leaf : Nat) (ts : Option Outcome) : Res ArtX × Bool :=
+  match site, ts with
+  | .unsupported, _ => (.ok ⟨site, ed, leaf, none⟩, false)
+  | _, none => (.ok ⟨site, ed, leaf, none⟩, false)
+  | _, some o =>
+    match o.res with
+    | .ok (_, t) => (attachXOrig H g site ed leaf t, true)
+    | .err e => (.err e, true)
+    | .panic s => (.panic s, true)
+    | .diverge => (.diverge, true)
+
+def signOpOrig (D : Nat → List Char) (H : Nat → Nat) (c : Cfg) (sect : Option TsConf) (k : KeyConf) (flag : String)
+    (memcache up : Bool) (sh : Shared) (now : Nat) (ctx : Ctx) (world : Url → Wire)
+    (site : Site) (rfcFlag : Bool) (hash nonce ed leaf : Nat) : Res ArtX × Outcome :=
+  match initPlan sect k flag with
+  | .err e => (.err e, noOutcome)
+  | .panic s => (.panic s, noOutcome)
+  | .diverge => (.diverge, noOutcome)
+  | .ok .off => ((signSiteOrig H c.guards site ed leaf none).1, noOutcome)
+  | .ok (.stamp conf name) =>
+    match site with
+    | .unsupported => ((signSiteOrig H c.guards site ed leaf none).1, noOutcome)
+    | _ =>
+      let call := stamperCall D H c conf name memcache up sh now ctx world (site.legacy rfcFlag) hash nonce ed
+      ((signSiteOrig H c.guards site ed leaf (some call.1.outcome)).1, call.1.outcome)
 
 /-- signer type (relic's module names) → attach site and number of signatures it time-stamps -/
 def siteOfType : String → Option (Site × Nat)
